@@ -15,7 +15,15 @@ VERIF = os.path.dirname(os.path.dirname(os.path.abspath(__file__)))
 scratch = f"/tmp/sv/{name}"
 os.makedirs('/tmp/sv', exist_ok=True)
 subprocess.run(['git', '-C', '/repo', 'worktree', 'remove', '--force', scratch], capture_output=True)
-subprocess.run(['git', '-C', '/repo', 'worktree', 'add', '-q', '--detach', scratch, 'HEAD'], check=True)
+for _try in range(8):       # several intakes may run side by side: `git worktree add` takes a lock
+    _r = subprocess.run(['git', '-C', '/repo', 'worktree', 'add', '-q', '--detach', scratch, 'HEAD'], capture_output=True, text=True)
+    if _r.returncode == 0:
+        break
+    import time, random
+    time.sleep(0.5 + random.random() * 2)
+    subprocess.run(['git', '-C', '/repo', 'worktree', 'prune'], capture_output=True)
+else:
+    raise SystemExit('git worktree add failed: ' + _r.stderr)
 res = {'property': pid, 'name': name}
 try:
     patch = os.path.join(src, f"patch{k}.diff")
